@@ -249,7 +249,7 @@ func normalise(c Case) Case {
 		if p.Split || p.NIf != 2 || p.MixedDir < 0 || p.MixedDir > 2 {
 			p.MixedDir = 0
 		}
-		if p.MixedDir == 2 && vh.Known(keyMixedDir) {
+		if p.MixedDir == 2 && mixedDirKnown() {
 			vh.Excluded(keyMixedDir)
 			p.MixedDir = 1
 		}
@@ -282,6 +282,17 @@ func normalise(c Case) Case {
 		}
 	}
 	return c
+}
+
+// mixedDirKnown reports whether the abs+rel finding is listed under any of the diagnostics it
+// can show up with.
+func mixedDirKnown() bool {
+	for _, diag := range []string{"output-neither-old-nor-new", "protected-output-changed", "existing-output-not-protected", "exit0", "exit0-output-not-new"} {
+		if vh.Known("run/dir=abs+rel-same-file/" + diag) {
+			return true
+		}
+	}
+	return false
 }
 
 func isGoOutput(p Pkg) bool { return p.Kind != "probe" }
@@ -778,6 +789,14 @@ type expect struct {
 	labelOf map[*outM]string // per-output override of label
 }
 
+// keyPart is the feature part of the key for a verdict about a protected output.
+func (ex expect) keyPart(o *outM, why string) string {
+	if l := ex.labelOf[o]; l != "" {
+		return l
+	}
+	return why
+}
+
 func (ex expect) lab(o *outM) string {
 	if l := ex.labelOf[o]; l != "" {
 		return l
@@ -850,7 +869,7 @@ func (m *model) judge(before, after map[string]string, res vh.Result, ex expect)
 		newEq := kindOf(a) == "file" && ((ex.newHash[o] != "" && hashOf(a) == ex.newHash[o]) || ex.fresh)
 		if !oldEq && !newEq {
 			if why := ex.blocked[o]; why != "" {
-				return &verdict{"run/" + why + "/protected-output-changed", fmt.Sprintf("output %q had to keep its previous state (%s) but changed: %s -> %s (a clean run would write %s)", o.rel, why, descOr(b), descOr(a), ex.newHash[o])}
+				return &verdict{"run/" + ex.keyPart(o, why) + "/protected-output-changed", fmt.Sprintf("output %q had to keep its previous state (%s) but changed: %s -> %s (a clean run would write %s)", o.rel, why, descOr(b), descOr(a), ex.newHash[o])}
 			}
 			return &verdict{"run/" + ex.lab(o) + "/output-neither-old-nor-new", fmt.Sprintf("output %q holds neither its previous state nor the complete new content: before %s, after %s, a clean run writes %s", o.rel, descOr(b), descOr(a), ex.newHash[o])}
 		}
@@ -859,12 +878,12 @@ func (m *model) judge(before, after map[string]string, res vh.Result, ex expect)
 				anyBlocked = why
 			}
 			if !oldEq {
-				return &verdict{"run/" + why + "/existing-output-not-protected", fmt.Sprintf("output %q had to keep its previous state (%s) but was replaced: %s -> %s", o.rel, why, descOr(b), descOr(a))}
+				return &verdict{"run/" + ex.keyPart(o, why) + "/existing-output-not-protected", fmt.Sprintf("output %q had to keep its previous state (%s) but was replaced: %s -> %s", o.rel, why, descOr(b), descOr(a))}
 			}
 		}
 		if res.Exit == 0 && !newEq {
 			if why := ex.blocked[o]; why != "" {
-				return &verdict{"run/" + why + "/exit0", fmt.Sprintf("exit status 0 although output %q could not be produced (%s); it holds %s", o.rel, why, descOr(a))}
+				return &verdict{"run/" + ex.keyPart(o, why) + "/exit0", fmt.Sprintf("exit status 0 although output %q could not be produced (%s); it holds %s", o.rel, why, descOr(a))}
 			}
 			return &verdict{"run/" + ex.lab(o) + "/exit0-output-not-new", fmt.Sprintf("exit status 0 but output %q does not hold the new content: %s, want %s", o.rel, descOr(a), ex.newHash[o])}
 		}
@@ -1119,7 +1138,7 @@ func run(c Case) *vh.Violation {
 		}
 		ex.labelOf = map[*outM]string{}
 		for _, o := range m.outs {
-			if c.Pkgs[o.pkg].MixedDir == 2 && !(faultOn && failing[o]) {
+			if c.Pkgs[o.pkg].MixedDir == 2 {
 				ex.labelOf[o] = "dir=abs+rel-same-file"
 			}
 		}
